@@ -55,7 +55,10 @@ def case(draw, tier):
          "form": draw(st.sampled_from(["lists", "lists", "lists"] + catgen.FORMS))}
     if op == "conflicts":
         c["missing"] = draw(st.sampled_from([None, None] + p))
-        c["fields"] = draw(st.sampled_from([None, ("exclude", hdr[-1]), ("include", hdr[-1]), ("include", list(hdr))]))
+        # include= / exclude= as a single name, a list or a tuple of names
+        c["fields"] = draw(st.sampled_from([None, ("exclude", hdr[-1]), ("include", hdr[-1]), ("include", list(hdr)),
+                                            ("exclude", [hdr[-1]]), ("exclude", tuple(hdr[-2:])), ("include", tuple(hdr[:2])),
+                                            ("include", [hdr[0]])]))
     return c
 
 
@@ -162,7 +165,7 @@ def check(case, ctx):
             if case["fields"]:
                 how, val = case["fields"]
                 fkw[how] = val
-                names = val if isinstance(val, list) else [val]
+                names = list(val) if isinstance(val, (list, tuple)) else [val]
                 considered = [i for i, f in enumerate(hdr) if (f in names) == (how == "include")]
             got = _rows2(etl.conflicts(T, key, missing=missing, **dict(kw, **fkw)))
             if got[:1] != [hdr]:
